@@ -49,6 +49,13 @@ def gen_case(rng, tier):
         if rng.random() < 0.4:
             ops.append({"op": "probe", "cfg": rng.choice(cfgs)})
             continue
+        if rng.random() < 0.15:
+            # one persistent seed(model.generate) / seed(model.regenerate) object called with argument
+            # structures that change which sites run (all / some / no addresses constrained or selected)
+            ops.append({"op": "gfi_probe", "method": rng.choice(["generate", "generate", "regenerate"]),
+                        "cover": rng.choice(["all", "all", "some", "none"]), "cfg": rng.choice(["eager", "eager", "jit"]),
+                        "x": round(rng.uniform(-1, 1), 2)})
+            continue
         kinds = NOISE if faulty else [k for k in NOISE if k not in FAULTS]
         k = rng.choice(kinds)
         op = {"op": k}
@@ -320,8 +327,45 @@ def run_case(case):
                              "sig": {"cfg": cfg, "last_noise": hist[-1] if hist else None}})
 
     seeded = gpjax.seed(f_plain)
+    gfi_ok = _gen_models()[0]
+    gfi_seeded = {"generate": gpjax.seed(gfi_ok.generate), "regenerate": gpjax.seed(gfi_ok.regenerate)}
+    gfi_tr = gfi_ok.generate({"a": jnp.float32(0.3), "b": jnp.float32(-0.2)}, 0.0)[0]
     for i, op in enumerate(case["ops"]):
         steps += 1
+        if op["op"] == "gfi_probe":
+            from genjax import sel
+
+            probes["gfi_probe_" + op["cover"]] = probes.get("gfi_probe_" + op["cover"], 0) + 1
+            m = op["method"]
+            if m == "generate":
+                arg = {"all": {"a": jnp.float32(0.4), "b": jnp.float32(1.1)}, "some": {"b": jnp.float32(1.1)}, "none": {}}[op["cover"]]
+                call = lambda fn: fn(key, arg, op["x"])
+            else:
+                arg = {"all": sel(()), "some": sel("a"), "none": sel()}[op["cover"]]
+                call = lambda fn: fn(key, gfi_tr, arg, op["x"])
+            try:
+                persistent = gfi_seeded[m]
+                res1 = call(jax.jit(persistent) if op["cfg"] == "jit" else persistent)
+                res2 = call(persistent)
+                fresh = call(gpjax.seed(getattr(gfi_ok, m)))
+                if not world.bit_equal(res2, fresh):
+                    viol.append({"class": "history_dependence", "clause": "seeded_object_reuse_equals_fresh_object",
+                                 "message": f"seed(model.{m}) reused after history {hist} ({op['cover']} addresses) differs from a freshly "
+                                            "seeded object with the same key and arguments",
+                                 "sig": {"cfg": "gfi", "last_noise": hist[-1] if hist else None}})
+                elif not world.tree_close(world.leaves(res1), world.leaves(res2))[0]:
+                    viol.append({"class": "transform_instability", "clause": "same_under_jit",
+                                 "message": f"jit(seed(model.{m})) differs from the eager call ({op['cover']} addresses)",
+                                 "sig": {"cfg": "gfi_jit", "last_noise": hist[-1] if hist else None}})
+            except Exception as e:
+                viol.append({"class": "history_dependence", "clause": "probe_raises_gfi",
+                             "message": f"gfi probe {m}/{op['cover']}/{op['cfg']} after history {hist} raised {type(e).__name__}: {str(e)[:300]}",
+                             "sig": {"cfg": "gfi", "exception": type(e).__name__, "frame": world.innermost_genjax_frame(e),
+                                     "last_noise": hist[-1] if hist else None}})
+            hist.append("gfi:" + m + ":" + op["cover"])
+            if viol:
+                break
+            continue
         if op["op"] == "probe":
             cfg = op["cfg"]
             probes["probe_points"] += 1
